@@ -30,10 +30,15 @@ func verifBusy(d int64) {
 
 func verifSub(site string, s *Subscription) {
 	if site == "populate" {
-		if s.state != stateDeleted {
+		switch s.state {
+		case stateDeleted:
+			site = "populate.deleted"
+		case stateLoading:
+			// collected for a response although it has not loaded yet
+			site = "populate.loading"
+		default:
 			return
 		}
-		site = "populate.deleted"
 	}
 	if site == "sub.event" {
 		// an event processed for a subscription that Unsend marked as not sent
